@@ -4,22 +4,29 @@
 (* new / overridden / disabled x reset_relays x which entries match x entry kinds, and the legacy  *)
 (* shapes).  Each behaviour is  Configure ; Lookup* ; RoundTrip ; Lookup*  and is printed as JSON; *)
 (* values are tokens that the Go driver replaces by concrete (seeded random) values.               *)
-EXTENDS ExecConfig, Json
+EXTENDS ExecConfig, Json, IOUtils
+
+CONSTANT SampleOneIn   \* 1: every document of the lattice; n: every n-th document of TLC's (deterministic)
+                       \* enumeration, starting at an offset given by the environment variable VERIF_SEED
 
 VARIABLE hist
 svars == <<vars, hist>>
 
-SInit == Init /\ hist = <<>>
+SInit == Init /\ hist = <<>> /\ TLCSet(10, 0)
+
+\* TLC register 10 counts the candidates seen so far (single worker)
+Sampled == LET k == TLCGet(10) IN TLCSet(10, k + 1) /\ (k + atoi(IOEnv.VERIF_SEED)) % SampleOneIn = 0
 
 Lookups == <<[ev |-> "Lookup", v |-> [id |-> "V1", pubkey |-> "V1"]],
              [ev |-> "Lookup", v |-> [id |-> "V2", pubkey |-> "V2"]]>>
 
-SNext ==
-    /\ hist = <<>>
-    /\ \E c \in Lattice(Pairs, Wide) :
-          /\ Configure(c, Fallback)
-          /\ hist' = <<[ev |-> "Reset", cfg |-> c, fb |-> Fallback]>> \o Lookups
-                     \o <<[ev |-> "RoundTrip"]>> \o Lookups
+SConfigure(c) ==
+    /\ SampleOneIn = 1 \/ Sampled
+    /\ Configure(c, Fallback)
+    /\ hist' = <<[ev |-> "Reset", cfg |-> c, fb |-> Fallback]>> \o Lookups
+               \o <<[ev |-> "RoundTrip"]>> \o Lookups
+
+SNext == hist = <<>> /\ ForLattice(Pairs, Wide, SConfigure)
 
 SSpec == SInit /\ [][SNext]_svars
 
